@@ -5,11 +5,13 @@ import (
 	"math/big"
 	"sort"
 	"strings"
+	"time"
 
 	g "github.com/zenon-network/go-zenon/chain/genesis/mock"
 	"github.com/zenon-network/go-zenon/chain/nom"
 	"github.com/zenon-network/go-zenon/common"
 	"github.com/zenon-network/go-zenon/common/types"
+	"github.com/zenon-network/go-zenon/consensus"
 	"github.com/zenon-network/go-zenon/verifier"
 	"github.com/zenon-network/go-zenon/vm"
 	"github.com/zenon-network/go-zenon/vm/constants"
@@ -31,6 +33,7 @@ type sendRec struct {
 	from, to  types.Address
 	tok       types.ZenonTokenStandard
 	amount    *big.Int
+	data      []byte // call data, kept for sends addressed to the token contract
 	confirmed uint64 // momentum height, 0 while only in the pool
 	order     int    // confirmation order among sends to the same contract
 	received  []types.AccountHeader
@@ -51,6 +54,16 @@ type ledgerRun struct {
 	preGate         bool
 	gateBroken      bool
 	undo            map[uint64][]func() // per momentum height: how to take its blocks out of the harness log again (rollback)
+	pool     *argPool
+	failed   bool
+	preGate  bool
+	gateBroken bool
+	note     string              // what the harness just did (appended to failure messages)
+	hist     string              // what is special about this history (appended to failure messages)
+	prevSupply  map[types.ZenonTokenStandard]*big.Int // recorded supplies at the previous state comparison
+	expectDelta map[types.ZenonTokenStandard]*big.Int // supply changes the momentum's token-contract receives account for (nil: no check)
+	deltaWhy    []string
+	undo     map[uint64][]func() // per momentum height: how to take its blocks out of the harness log again (rollback)
 }
 
 func (r *ledgerRun) fail(format string, a ...interface{}) {
@@ -61,7 +74,14 @@ func (r *ledgerRun) fail(format string, a ...interface{}) {
 		defer func() { r.gateBroken = true }()
 	}
 	r.failed = true
-	r.c.Fail("ledger run=%d h=%d: %s", r.id, r.n.Height(), fmt.Sprintf(format, a...))
+	note := ""
+	if r.note != "" {
+		note = " [" + r.note + "]"
+	}
+	if r.hist != "" {
+		note += " {history: " + r.hist + "}"
+	}
+	r.c.Fail("ledger run=%d h=%d: %s%s", r.id, r.n.Height(), fmt.Sprintf(format, a...), note)
 }
 
 func tokCallString(data []byte) string {
@@ -111,6 +131,9 @@ func (r *ledgerRun) onMomentum(dm *nom.DetailedMomentum) {
 		rec := r.sends[b.Hash]
 		if rec == nil {
 			rec = &sendRec{hash: b.Hash, from: b.Address, to: b.ToAddress, tok: b.TokenStandard, amount: new(big.Int).Set(b.Amount)}
+			if b.ToAddress == types.TokenContract {
+				rec.data = append([]byte{}, b.Data...)
+			}
 			r.sends[b.Hash] = rec
 			r.sendList = append(r.sendList, b.Hash)
 		}
@@ -139,8 +162,23 @@ func (r *ledgerRun) onMomentum(dm *nom.DetailedMomentum) {
 			}
 		}
 	}
+	// C01 "supply changes only through the token contract's issue, mint and burn operations": what the token contract's
+	// receive blocks of this momentum account for - a call that was applied (status 1) changes the supply by its amount, a
+	// call that failed (status 2: e.g. a mint beyond the maximum supply) by nothing
+	delta := map[types.ZenonTokenStandard]*big.Int{}
+	var why []string
+	addDelta := func(t types.ZenonTokenStandard, v *big.Int, w string) {
+		if delta[t] == nil {
+			delta[t] = new(big.Int)
+		}
+		delta[t].Add(delta[t], v)
+		why = append(why, w)
+	}
 	for _, b := range blocks {
 		r.addrs[b.Address] = true
+		if b.BlockType == nom.BlockTypeContractReceive && b.Address == types.TokenContract {
+			r.tokenReceiveDelta(b, addDelta)
+		}
 		switch b.BlockType {
 		case nom.BlockTypeUserSend:
 			noteSend(b)
@@ -176,7 +214,56 @@ func (r *ledgerRun) onMomentum(dm *nom.DetailedMomentum) {
 		}
 	}
 	c.Emit("L-mom %d | ok", h)
+	r.expectDelta, r.deltaWhy = delta, why
 	r.compareState()
+	r.expectDelta, r.deltaWhy = nil, nil
+}
+
+// tokenReceiveDelta: the supply change a receive block of the token contract stands for, from the call it answers
+func (r *ledgerRun) tokenReceiveDelta(b *nom.AccountBlock, add func(t types.ZenonTokenStandard, v *big.Int, w string)) {
+	rec := r.sends[b.FromBlockHash]
+	if rec == nil || len(b.Data) != 8 {
+		return
+	}
+	status := common.BytesToUint64(b.Data)
+	m, err := definition.ABIToken.MethodById(rec.data)
+	if err != nil {
+		return
+	}
+	switch m.Name {
+	case definition.MintMethodName:
+		p := new(definition.MintParam)
+		if definition.ABIToken.UnpackMethod(p, m.Name, rec.data) != nil {
+			return
+		}
+		if status == 1 {
+			add(p.TokenStandard, p.Amount, fmt.Sprintf("mint of %s %s requested by %s applied", amt(p.Amount), tokName(p.TokenStandard), addrName(rec.from)))
+			r.c.Hit("supply-mint-applied")
+			if types.IsEmbeddedAddress(rec.from) {
+				r.c.Hit("supply-mint-by-contract-applied")
+			}
+		} else {
+			add(p.TokenStandard, new(big.Int), fmt.Sprintf("mint of %s %s requested by %s REFUSED", amt(p.Amount), tokName(p.TokenStandard), addrName(rec.from)))
+			r.c.Hit("supply-mint-refused")
+			if types.IsEmbeddedAddress(rec.from) {
+				r.c.Hit("supply-mint-by-contract-refused")
+			}
+		}
+	case definition.BurnMethodName:
+		if status == 1 {
+			add(rec.tok, new(big.Int).Neg(rec.amount), fmt.Sprintf("burn of %s %s by %s applied", amt(rec.amount), tokName(rec.tok), addrName(rec.from)))
+			r.c.Hit("supply-burn-applied")
+		}
+	case definition.IssueMethodName:
+		p := new(definition.IssueParam)
+		if definition.ABIToken.UnpackMethod(p, m.Name, rec.data) != nil {
+			return
+		}
+		if status == 1 && len(b.DescendantBlocks) == 1 {
+			add(b.DescendantBlocks[0].TokenStandard, p.TotalSupply, fmt.Sprintf("issue of %s by %s applied", amt(p.TotalSupply), addrName(rec.from)))
+			r.c.Hit("supply-issue-applied")
+		}
+	}
 }
 
 func (r *ledgerRun) noteReceive(b *nom.AccountBlock) {
@@ -323,6 +410,7 @@ func (r *ledgerRun) compareState() {
 		toks = append(toks, t)
 	}
 	sort.Slice(toks, func(i, j int) bool { return string(toks[i][:]) < string(toks[j][:]) })
+	nowSupply := map[types.ZenonTokenStandard]*big.Int{}
 	for _, t := range toks {
 		if t == types.ZeroTokenStandard {
 			continue
@@ -350,7 +438,23 @@ func (r *ledgerRun) compareState() {
 		if info.TotalSupply.Cmp(info.MaxSupply) > 0 {
 			r.fail("C01: token %s supply %s exceeds max supply %s", tokName(t), amt(info.TotalSupply), amt(info.MaxSupply))
 		}
+		nowSupply[t] = new(big.Int).Set(info.TotalSupply)
+		if r.expectDelta != nil {
+			prev := r.prevSupply[t]
+			if prev == nil {
+				prev = new(big.Int)
+			}
+			d := r.expectDelta[t]
+			if d == nil {
+				d = new(big.Int)
+			}
+			if new(big.Int).Add(prev, d).Cmp(info.TotalSupply) != 0 {
+				r.fail("C01: recorded supply of %s went from %s to %s in this momentum; the token contract's issue / mint / burn operations applied in it account for a change of %s [%s]", tokName(t), amt(prev), amt(info.TotalSupply), amt(d), strings.Join(r.deltaWhy, "; "))
+			}
+			c.Hit("supply-change-checked")
+		}
 	}
+	r.prevSupply = nowSupply
 	c.Hit("momentum")
 }
 
@@ -429,6 +533,90 @@ func (r *ledgerRun) poolMonitor(_ []*nom.AccountBlock) {
 
 var ledgerUsers = []types.Address{}
 
+// balancesOf: the account's balances as of the pool state (frontier account store)
+func (r *ledgerRun) balancesOf(a types.Address) map[types.ZenonTokenStandard]*big.Int {
+	bm, err := r.n.Chain().GetFrontierAccountStore(a).GetBalanceMap()
+	if err != nil || bm == nil {
+		return map[types.ZenonTokenStandard]*big.Int{}
+	}
+	return bm
+}
+
+// recordAccepted: bookkeeping + monitors for a user block the node just accepted into its pool, whatever path it came
+// through (template, raw ApplyBlock, protobuf, JSON). The block is read back FROM THE LEDGER: the in-flight amount of a
+// send is the amount the ledger records for it (the one a receive will credit), not a field of the object that was handed
+// in. Monitor (C01, "preserved by every accepted account block"; "plain transfers leave the sum unchanged"): the block
+// changed its own account's balances by exactly that amount of exactly that token - a send debits it, a receive credits
+// the amount of the send it answers - and nothing else; then conservation at the pool state.
+func (r *ledgerRun) recordAccepted(kind string, addr types.Address, hash types.Hash, before map[types.ZenonTokenStandard]*big.Int) *nom.AccountBlock {
+	c := r.c
+	b, err := r.n.Chain().GetFrontierAccountStore(addr).ByHash(hash)
+	if err != nil || b == nil {
+		r.fail("accepted block %s of %s (%s) is not in the account's frontier store: %v", h8(hash), addrName(addr), kind, err)
+		return nil
+	}
+	c.Hit("accepted-" + kind)
+	after := r.balancesOf(addr)
+	want := map[types.ZenonTokenStandard]*big.Int{}
+	for t, v := range before {
+		want[t] = new(big.Int).Set(v)
+	}
+	known := true
+	what := ""
+	if b.IsSendBlock() {
+		if b.Amount.Sign() < 0 {
+			r.fail("C01: the ledger records the negative amount %s for send %s of %s", amt(b.Amount), h8(hash), addrName(addr))
+		}
+		if want[b.TokenStandard] == nil {
+			want[b.TokenStandard] = new(big.Int)
+		}
+		want[b.TokenStandard].Sub(want[b.TokenStandard], b.Amount)
+		what = fmt.Sprintf("send of %s %s to %s", amt(b.Amount), tokName(b.TokenStandard), addrName(b.ToAddress))
+	} else if rec := r.sends[b.FromBlockHash]; rec != nil {
+		if want[rec.tok] == nil {
+			want[rec.tok] = new(big.Int)
+		}
+		want[rec.tok].Add(want[rec.tok], rec.amount)
+		what = fmt.Sprintf("receive of send %s (%s %s)", h8(rec.hash), amt(rec.amount), tokName(rec.tok))
+	} else {
+		known = false
+	}
+	if known {
+		toks := map[types.ZenonTokenStandard]bool{}
+		for t := range want {
+			toks[t] = true
+		}
+		for t := range after {
+			toks[t] = true
+		}
+		for t := range toks {
+			w, a := want[t], after[t]
+			if w == nil {
+				w = new(big.Int)
+			}
+			if a == nil {
+				a = new(big.Int)
+			}
+			if w.Cmp(a) != 0 {
+				bf := before[t]
+				r.fail("C01: accepted block %s/%d (%s, delivered as %s) changed the %s balance of its account from %s to %s; a %s must leave %s", addrName(addr), b.Height, h8(hash), kind, tokName(t), amt(bf), amt(a), what, amt(w))
+			}
+		}
+		c.Hit("accepted-balance-delta-checked")
+	}
+	if b.IsSendBlock() {
+		rec := &sendRec{hash: b.Hash, from: b.Address, to: b.ToAddress, tok: b.TokenStandard, amount: new(big.Int).Set(b.Amount)}
+		if b.ToAddress == types.TokenContract {
+			rec.data = append([]byte{}, b.Data...)
+		}
+		r.sends[b.Hash] = rec
+		r.sendList = append(r.sendList, b.Hash)
+		r.addrs[b.ToAddress] = true
+	}
+	r.poolMonitor(nil)
+	return b
+}
+
 func init() {
 	register("ledger", func(c *Ctx) {
 		for i := 0; i < c.N; i++ {
@@ -446,9 +634,21 @@ func ledgerHistory(c *Ctx, id int) {
 	} else {
 		verifier.ReceiverMismatchEnforcementHeight = 0
 	}
+	// one history in four runs on a chain whose genesis puts ZNN / QSR within a few reward mints of their maximum supply
+	// (legal: the genesis check demands total <= max), with ten-minute reward epochs so that the contracts' reward mints
+	// (liquidity rewards at the epoch update, CollectReward of pillars / stakers / sentinels) meet the cap inside the history
+	tight := c.Args["caps"] == "tight" || (c.Args["caps"] == "" && id%4 == 2 && id < 480) // at most 120 per run (thorough tier)
+	tightDesc := ""
+	if tight {
+		restore, desc := ledgerTightCaps(c, id)
+		defer restore()
+		c.Hit("history-tight-caps")
+		c.Hit("history-tight-caps:" + desc)
+		tightDesc = "mock genesis with MaxSupply = TotalSupply + delta, " + desc + " (E = first epoch's liquidity reward), 10-minute reward epochs"
+	}
 	n := NewNode()
 	defer n.Stop()
-	r := &ledgerRun{c: c, n: n, id: id, sends: map[types.Hash]*sendRec{}, addrs: map[types.Address]bool{}, tokens: map[types.ZenonTokenStandard]bool{},
+	r := &ledgerRun{hist: tightDesc, c: c, n: n, id: id, sends: map[types.Hash]*sendRec{}, addrs: map[types.Address]bool{}, tokens: map[types.ZenonTokenStandard]bool{},
 		toContractOrder: map[types.Address][]types.Hash{}, contractRecvd: map[types.Address]int{}, preGate: preGate, undo: map[uint64][]func(){}}
 	gate := "post"
 	if preGate {
@@ -524,20 +724,14 @@ func ledgerHistory(c *Ctx, id int) {
 	issued := []types.ZenonTokenStandard{}
 	pooled := []*nom.AccountBlock{}
 	submit := func(kind string, tpl *nom.AccountBlock) *nom.AccountBlock {
+		before := r.balancesOf(tpl.Address)
 		b, err := n.Submit(tpl)
 		if err != nil {
 			c.Hit("rejected-" + kind)
 			return nil
 		}
-		c.Hit("accepted-" + kind)
 		pooled = append(pooled, b)
-		if b.IsSendBlock() {
-			r.sends[b.Hash] = &sendRec{hash: b.Hash, from: b.Address, to: b.ToAddress, tok: b.TokenStandard, amount: new(big.Int).Set(b.Amount)}
-			r.sendList = append(r.sendList, b.Hash)
-			r.addrs[b.ToAddress] = true
-		}
-		r.poolMonitor(pooled)
-		return b
+		return r.recordAccepted(kind, b.Address, b.Hash, before)
 	}
 	pickTok := func() types.ZenonTokenStandard {
 		x := c.R.Intn(10)
@@ -580,12 +774,31 @@ func ledgerHistory(c *Ctx, id int) {
 		}
 	}
 
+	if tight {
+		// somebody to be rewarded in QSR as well: a stake, and a sentinel (QSR deposit, then registration)
+		submit("stake", &nom.AccountBlock{BlockType: nom.BlockTypeUserSend, Address: g.User1.Address, ToAddress: types.StakeContract, TokenStandard: types.ZnnTokenStandard,
+			Amount: big.NewInt(1000 * g.Zexp), Data: definition.ABIStake.PackMethodPanic(definition.StakeMethodName, constants.StakeTimeMinSec)})
+		submit("sentinel-deposit", &nom.AccountBlock{BlockType: nom.BlockTypeUserSend, Address: g.User2.Address, ToAddress: types.SentinelContract, TokenStandard: types.QsrTokenStandard,
+			Amount: new(big.Int).Set(constants.SentinelQsrDepositAmount), Data: definition.ABISentinel.PackMethodPanic(definition.DepositQsrMethodName)})
+		if !momentum() || !momentum() {
+			return
+		}
+		submit("sentinel-register", &nom.AccountBlock{BlockType: nom.BlockTypeUserSend, Address: g.User2.Address, ToAddress: types.SentinelContract, TokenStandard: types.ZnnTokenStandard,
+			Amount: new(big.Int).Set(constants.SentinelZnnRegisterAmount), Data: definition.ABISentinel.PackMethodPanic(definition.RegisterSentinelMethodName)})
+		if !momentum() {
+			return
+		}
+	}
 	steps := 50 + c.R.Intn(30)
 	if c.Tier == "thorough" {
 		steps = 120 + c.R.Intn(80)
 	}
 	for s := 0; s < steps && !r.failed; s++ {
 		x := c.R.Intn(100)
+		if s == steps/3 { // once in every history, whatever the seed
+			r.hostileBurst(users, everyone, pickTok(), 7*id, 8)
+			continue
+		}
 		switch {
 		case x < 22: // plain transfer
 			from := users[c.R.Intn(len(users))]
@@ -794,6 +1007,8 @@ func ledgerHistory(c *Ctx, id int) {
 			if b != nil {
 				c.Hit("call-accepted-" + embeddedNames[ca.addr][2:] + "." + m)
 			}
+		case x >= 97: // blocks with hostile numeric fields through every acceptance path (s_ledger_hostile.go)
+			r.hostileBurst(users, everyone, pickTok(), s+id, 6)
 		case x < 84 && n.Height() > 6 && !preGate: // reorganisation: the last 1–3 momentums are rolled back (as when a longer side chain arrives)
 			k := uint64(1 + c.R.Intn(3))
 			H := n.Height() - k
@@ -879,6 +1094,36 @@ func ledgerHistory(c *Ctx, id int) {
 			}
 		}
 	}
+	if tight && !r.failed {
+		// reward phase: a good two epochs; stakes / a sentinel were set up at the start, everybody who may hold a reward
+		// deposit tries to collect it now and then (twice in a row as well), the owner-less ZNN / QSR are minted only by contracts
+		collectors := append([]types.Address{g.User1.Address, g.User2.Address, g.User3.Address}, g.Pillar1.Address, g.Pillar2.Address, g.Pillar3.Address)
+		target := n.Height() + 135
+		for n.Height() < target && !r.failed {
+			pooled = pooled[:0]
+			if !momentum() {
+				return
+			}
+			if n.Height()%7 == 0 {
+				for _, who := range collectors {
+					for _, ca := range []types.Address{types.PillarContract, types.StakeContract, types.SentinelContract, types.LiquidityContract} {
+						if c.R.Intn(3) != 0 {
+							continue
+						}
+						submit("collect-reward", &nom.AccountBlock{BlockType: nom.BlockTypeUserSend, Address: who, ToAddress: ca,
+							Data: definition.ABICommon.PackMethodPanic(definition.CollectRewardMethodName)})
+					}
+				}
+				// a user asks the token contract directly for ZNN / QSR (refused: only embedded contracts may mint them)
+				t := []types.ZenonTokenStandard{types.ZnnTokenStandard, types.QsrTokenStandard}[c.R.Intn(2)]
+				if data, err := definition.ABIToken.PackMethod(definition.MintMethodName, t, big.NewInt(int64(1+c.R.Intn(5))), g.User1.Address); err == nil {
+					submit("token-mint-native-by-user", &nom.AccountBlock{BlockType: nom.BlockTypeUserSend, Address: g.User1.Address, ToAddress: types.TokenContract, Data: data})
+				}
+			}
+		}
+		c.Hit("history-tight-caps-reward-phase")
+		constants.UpdateMinNumMomentums = 1 << 40 // the producers stop sending Update calls: the drain below waits for answers, not for new calls
+	}
 	// drain: every confirmed send to a contract must be answered (C09: the inbox is never wedged)
 	for i := 0; i < 4 && !r.failed; i++ {
 		pooled = pooled[:0]
@@ -904,4 +1149,74 @@ func burnLimit(bal *big.Int) int {
 		return int(bal.Int64())
 	}
 	return 30
+}
+
+// ledgerTightCaps rewrites the maximum supplies of the mock genesis (a package variable; restored by the returned function)
+// to total + delta with delta around the first epoch's liquidity reward E of the token (the first mint a contract asks for):
+// 0, 1, E-1, E, E+1, 2E-1, 2E, 2E+1, E + a random part of E, a few units, several E, and shortens the reward epoch.
+func ledgerTightCaps(c *Ctx, id int) (restore func(), desc string) {
+	origEpoch, origUpd, origLimit := consensus.EpochDuration, constants.UpdateMinNumMomentums, constants.RewardTimeLimit
+	toks := g.EmbeddedGenesis.TokenConfig.Tokens
+	origMax := make([]*big.Int, len(toks))
+	for i, t := range toks {
+		origMax[i] = t.MaxSupply
+	}
+	restore = func() {
+		consensus.EpochDuration, constants.UpdateMinNumMomentums, constants.RewardTimeLimit = origEpoch, origUpd, origLimit
+		for i, t := range toks {
+			t.MaxSupply = origMax[i]
+		}
+	}
+	consensus.EpochDuration = 10 * time.Minute // the shortest the consensus layer supports (one election tick)
+	constants.UpdateMinNumMomentums, constants.RewardTimeLimit = 10, 0
+	eZnn, eQsr := constants.LiquidityRewardForEpoch(0)
+	family := func(e *big.Int, k int) (*big.Int, string) {
+		two := new(big.Int).Mul(e, big.NewInt(2))
+		one := big.NewInt(1)
+		switch k % 12 {
+		case 0:
+			return big.NewInt(0), "0"
+		case 1:
+			return big.NewInt(1), "1"
+		case 2:
+			return new(big.Int).Sub(e, one), "E-1"
+		case 3:
+			return new(big.Int).Set(e), "E"
+		case 4:
+			return new(big.Int).Add(e, one), "E+1"
+		case 5:
+			return new(big.Int).Sub(two, one), "2E-1"
+		case 6:
+			return two, "2E"
+		case 7:
+			return new(big.Int).Add(two, one), "2E+1"
+		case 8:
+			return new(big.Int).Add(e, new(big.Int).Rand(c.R, e)), "E+part"
+		case 9:
+			return big.NewInt(int64(2 + c.R.Intn(1000))), "units"
+		case 10:
+			return new(big.Int).Add(new(big.Int).Mul(e, big.NewInt(int64(3+c.R.Intn(12)))), big.NewInt(int64(c.R.Intn(3)-1))), "kE+-1"
+		default:
+			return nil, "far"
+		}
+	}
+	k := id / 4
+	for _, t := range toks {
+		var d *big.Int
+		var name string
+		switch t.TokenStandard {
+		case types.ZnnTokenStandard:
+			d, name = family(eZnn, k)
+			desc += "znn=" + name
+		case types.QsrTokenStandard:
+			d, name = family(eQsr, k+5)
+			desc += " qsr=" + name
+		default:
+			continue
+		}
+		if d != nil {
+			t.MaxSupply = new(big.Int).Add(t.TotalSupply, d)
+		}
+	}
+	return restore, desc
 }
